@@ -32,6 +32,10 @@ RULES = [
     # valid rules whose only effect can be a slot redundancy (no new class, no merge of two classes)
     ("mul0-var", "(mul 0 ?a)", "(mul 0 (var 3))", None),
     ("sum-rename", "(sum 1 (mul 0 ?a))", "(sum 2 (mul 0 (var 3)))", None),
+    # a variable that is OUTSIDE the binder on the left moves under it: valid without a condition,
+    # because the binder's slot cannot occur in what the variable stands for (no capture)
+    ("pull-in", "(mul ?a (sum 1 ?b))", "(sum 1 (mul ?a ?b))", None),
+    ("let-in", "(add ?a (let 1 ?b ?c))", "(let 1 (add ?a ?b) ?c)", None),
 ]
 SUBPOOL = ["0", "1", "2", "(var 1)", "(var 2)", "(var 3)", "(add (var 1) 1)", "(mul (var 1) (var 1))", "(mul (var 2) (var 3))", "(sum 3 (mul (var 3) (var 1)))"]
 
